@@ -305,7 +305,13 @@ class Executor(Evaluator):
         except Exception:
             return None
         env = getattr(self.cur_contract, "extra", {}).get("env", {}) if self.cur_contract else {}
-        return name if name in env and self.module is self.fi.module else None
+        if self.module is not self.fi.module:
+            return None
+        if name in env:
+            return name
+        import re as _re
+        generic = _re.sub(r"\[[^\]]*\]", "[*]", name)  # 'processes[i].start' matches the key 'processes[*].start'
+        return generic if generic in env else None
 
     def self_method(self, node):
         f = node.func
@@ -667,9 +673,13 @@ class Executor(Evaluator):
         pre.env = dict(cenv)
         pre.ghost_env = genv
         pre.old = pre
+        # a violated callee precondition voids everything the caller proves through that call: relevant to every property both serve
+        shared = set(con.props or []) & set(self.cur_contract.props or []) if self.cur_contract is not None else set()
+        if con.qualname.startswith("iface:") and self.cur_contract is not None:
+            shared = set(self.cur_contract.props or [])
         for label, clause, tags in con.clauses("requires"):
             g = self.eval_spec(clause, pre, {})
-            self.oblige(st, "pre", f"{callee}.{label}" if label else callee, g, tags=set(tags) | self.cur_tags, line=node.lineno)
+            self.oblige(st, "pre", f"{callee}.{label}" if label else callee, g, tags=set(tags) | self.cur_tags | shared, line=node.lineno)
         # havoc frame
         mods = con.modifies if con.modifies is not None else [p for p, a in cenv.items() if isinstance(a, Arr)]
         for p in mods:
